@@ -217,6 +217,7 @@ def _chase(defs, op, depth=0):
 
 
 _NEW_DIRECT = set()
+_MAP_EXPANDED = set()      # closures whose only use was `opt.map(closure)`: folded into the match that replaced the call
 
 
 def _chase_closure(defs, op, depth=0):
@@ -239,6 +240,54 @@ def _chase_closure(defs, op, depth=0):
     if "ref" in rv and not rv["ref"]["p"]:
         return _chase_closure(defs, {"copy": rv["ref"]}, depth + 1)
     return None
+
+
+def expand_option_map(body, by_path):
+    """`opt.map(closure)` with a closure built in this body is its definition: `match opt { None => None, Some(x) =>
+    Some(closure(x)) }` (the call of the closure is then folded in like any direct closure call).  Returns the number of
+    call sites rewritten."""
+    defs = _single_defs(body)
+    n = 0
+    blocks = body["blocks"]
+    for bi in range(len(blocks)):
+        t = blocks[bi]["term"]
+        if t["k"] != "call" or str(t.get("fn")) not in ("std::option::Option::<T>::map",) or len(t.get("args", [])) != 2 or t.get("target") is None:
+            continue
+        cl = _chase_closure(defs, t["args"][1])
+        if cl is None or cl not in by_path or by_path[cl]["kind"] != "Closure" or by_path[cl]["arg_count"] != 2:
+            continue
+        opt = t["args"][0]
+        op_ = opt.get("move") or opt.get("copy")
+        if op_ is None or op_["p"]:
+            continue
+        cb = by_path[cl]
+        line = t.get("line", 0)
+        L = body["locals"]
+        opt_ty = L[op_["l"]]["ty"]
+        l_discr = len(L); L.append({"ty": "isize", "mut": False})
+        l_pay = len(L); L.append({"ty": cb["locals"][2]["ty"], "mut": False})
+        l_tup = len(L); L.append({"ty": "(%s,)" % cb["locals"][2]["ty"], "mut": False})
+        l_res = len(L); L.append({"ty": cb["locals"][0]["ty"], "mut": False})
+        b_none, b_some, b_wrap = len(blocks), len(blocks) + 1, len(blocks) + 2
+        dest, target, unwind = t["dest"], t["target"], t.get("unwind", "continue")
+        mk = lambda stmts, term: {"stmts": stmts, "term": term, "cleanup": blocks[bi].get("cleanup", False), "synth": "Option::map"}
+        asg = lambda lhs, rv: {"k": "assign", "line": line, "exp": False, "lhs": lhs, "rv": rv}
+        blocks.append(mk([asg(copy.deepcopy(dest), {"agg": "adt", "adt": "std::option::Option", "variant": "None", "vidx": 0, "fields": [], "ops": []})],
+                         {"k": "goto", "line": line, "col": 0, "exp": False, "target": target}))
+        blocks.append(mk([asg({"l": l_pay, "p": []}, {"use": {"move": {"l": op_["l"], "p": [{"downcast": 1, "variant": "Some"}, {"f": 0, "name": "0", "of": opt_ty, "ty": cb["locals"][2]["ty"]}]}}}),
+                          asg({"l": l_tup, "p": []}, {"agg": "tuple", "ops": [{"move": {"l": l_pay, "p": []}}]})],
+                         {"k": "call", "line": line, "col": t.get("col", 0), "exp": False, "fn": "std::ops::FnOnce::call_once", "fn_args": "", "fn_local": False,
+                          "resolved": cl, "resolved_local": True, "devirtualised": True, "args": [copy.deepcopy(t["args"][1]), {"move": {"l": l_tup, "p": []}}], "arg_tys": [],
+                          "dest": {"l": l_res, "p": []}, "target": b_wrap, "unwind": unwind, "fn_line": line}))
+        blocks.append(mk([asg(copy.deepcopy(dest), {"agg": "adt", "adt": "std::option::Option", "variant": "Some", "vidx": 1, "fields": ["0"], "ops": [{"move": {"l": l_res, "p": []}}]})],
+                         {"k": "goto", "line": line, "col": 0, "exp": False, "target": target}))
+        blocks[bi]["stmts"].append(asg({"l": l_discr, "p": []}, {"discr": {"l": op_["l"], "p": []}, "of": opt_ty}))
+        blocks[bi]["term"] = {"k": "switch", "line": line, "col": t.get("col", 0), "exp": False, "discr": {"move": {"l": l_discr, "p": []}}, "ty": "isize",
+                              "arms": [[0, b_none], [1, b_some]], "otherwise": b_some, "synth": "Option::map"}
+        _NEW_DIRECT.add(cl)
+        _MAP_EXPANDED.add(cl)
+        n += 1
+    return n
 
 
 def devirtualise(body, by_path):
@@ -370,6 +419,13 @@ def normalise(crate_name, bodies, known):
             if t["k"] == "call" and t.get("fn") in CLOSURE_CALLS and t.get("resolved") in by_path \
                     and by_path[t["resolved"]]["kind"] == "Closure":
                 direct.add(t["resolved"])
+    # `opt.map(|x| ..)` with a closure built on the spot is a `match`
+    for b in bodies:
+        if expand_option_map(b, by_path):
+            for p_ in list(_NEW_DIRECT):
+                if p_ in by_path:
+                    direct.add(p_)
+            _NEW_DIRECT.clear()
     if not new and not direct:
         return set(), []
     pristine = {p: copy.deepcopy(b) for p, b in new.items()}
@@ -382,7 +438,8 @@ def normalise(crate_name, bodies, known):
         txt = json.dumps([blk["stmts"] for blk in b["blocks"]]) + json.dumps(
             [blk["term"].get("args") for blk in b["blocks"] if blk["term"]["k"] == "call"])
         for p in new:
-            if json.dumps(p) in txt:
+            # as a function VALUE: a fn-item constant (a promoted constant's `def` also names its function: not a use)
+            if ('"fn": %s' % json.dumps(p)) in txt:
                 not_absorbed.add(p)
     for b in bodies:
         stack = [b["path"]]
@@ -396,6 +453,10 @@ def normalise(crate_name, bodies, known):
             _NEW_DIRECT.clear()
             _inline_into(b, pristine, stack, report, not_absorbed, 0)
     absorbed = set()
+    for p in list(_MAP_EXPANDED):
+        if p in by_path and p not in not_absorbed:
+            absorbed.add(p)
+    _MAP_EXPANDED.clear()
     for p, b in new.items():
         vis = b.get("vis", "")
         if p in not_absorbed or vis == "Public":
